@@ -364,3 +364,76 @@ def shared_suffixes(ctx):
         for o in (o1, o2, o3):
             out.append((fmt.format(*comps), o, 'shared-suffix', (comps, fn) if len(comps) > 1 else None))
     return out
+
+def odd_keys(ctx):
+    """keys that look like paths, differ in case only, or carry blanks; objects where only case-variants of the asked key exist"""
+    out = []
+    odd = obj({'a.b': I(1), 'a': {'b': I(2), 'B': I(3), 'b.c': I(4), 'b ': I(5), '': I(6)}, 'A': {'b': I(7)}, 'a.b.c': I(8), 'a b': I(9), '': {'': I(10)}, 'x': {'y.z': I(11), 'y': {'z': I(12)}},
+               'a-b': I(13), 'a_b': I(14), 'a:b': I(15), 'a-b.c': I(16), 'n1': {'2': I(17)}, 'Ab': I(18), 'aB': I(19), 'AB': {'c': I(20)}, 'abc ': I(21)})
+    for t in ['a.b eq 1', 'a.b eq 2', 'A.b eq 7', 'a.B eq 3', 'A.B eq 3', 'a.b.c eq 8', 'a.b.c eq 4', 'a.b.c pr', 'x.y.z eq 11', 'x.y.z eq 12', 'a-b eq 13', 'a_b eq 14', 'a:b eq 15',
+              'a-b.c eq 16', 'a-b.c pr', 'a.b pr and A.b pr', 'a.b eq 2 and x.y.z eq 12', 'a.b eq 1 or a.b.c eq 8', 'n1.2 pr', 'a.b ne 1', 'A.b ne 2', 'a.b in [1]', 'a.b in [2]',
+              'ab eq 18', 'ab eq 19', 'ab pr', 'ab.c eq 20', 'AB.c eq 20', 'abc eq 21', 'A.B eq 7', 'a.B eq 2', 'A.b eq 2']:
+        out.append((t, odd, 'odd-keys'))
+    # only case-variants of the key exist, with different values: whatever is picked, it is not what the rule names
+    cv = obj({'Level': I(3), 'LEVEL': I(8), 'Name': S('alice'), 'NAME': S('bob'), 'user': {'ID': I(1), 'Id': I(2)}, 'Flag': ('b', True), 'FLAG': ('b', False), 'V': S('1.0.0'), 'v ': S('2.0.0')})
+    for t in ['level lt 5', 'level gt 5', 'level eq 3', 'level eq 8', 'level pr', 'level eq null', 'name eq "alice"', 'name eq "bob"', 'name co "o"', 'user.id in [1, 3]', 'user.id eq 2',
+              'user.iD pr', 'flag eq true', 'flag eq false', 'flag ne true', 'v eq 1.0.0', 'v gt 1.0.0', 'level lt 5 or level gt 5', 'not (level pr)', 'name in ["alice", "bob"]']:
+        for _ in range(6):          # repeated: a choice that follows map iteration order shows as a changing outcome
+            out.append((t, cv, 'case-variant-keys'))
+    return out
+
+def nonascii_prefix(ctx):
+    """a non-ASCII character early in the rule (inside a string literal), then comparisons whose names / texts matter;
+    4th element: (the comparisons, the Boolean combination the rule text denotes)"""
+    out = []
+    o = obj({'name': S('Ann'), 'tier': I(2), 'age': I(30), 'x': I(1), 'y': I(2), 'region': S('eu')})
+    o2 = obj({'name': S('Zoë'), 'tier': I(1), 'age': I(30), 'x': I(1), 'y': I(2), 'region': S('us')})
+    T = [('{0} or {1} or {2}', ['name eq "%s"', 'tier eq 1', 'tier eq 2'], lambda a, b, c: a or b or c),
+         ('{0} or {1} or {2}', ['name eq "%s"', 'tier eq 2', 'tier eq 1'], lambda a, b, c: a or b or c),
+         ('{0} and {1}', ['name eq "%s"', 'age gt 18'], lambda a, b: a and b), ('{1} and {0}', ['name eq "%s"', 'age gt 18'], lambda a, b: a and b),
+         ('{0} and {1} and {2}', ['name ne "%s"', 'x eq 1', 'y eq 2'], lambda a, b, c: a and b and c),
+         ('{0} or {1} or {2}', ['name eq "%s"', 'x eq 2', 'y eq 2'], lambda a, b, c: a or b or c),
+         ('({0}) and ({1})', ['name eq "%s"', 'age gt 18'], lambda a, b: a and b), ('{0} or not ({1})', ['name eq "%s"', 'age lt 18'], lambda a, b: a or not b),
+         ('{0} or {1} or {2}', ['name co "%s"', 'region eq "eu"', 'region eq "us"'], lambda a, b, c: a or b or c),
+         ('{0} and {1}', ['name in ["%s", "Ann"]', 'tier in [2, 3]'], lambda a, b: a and b), ('{0} or {1}', ['name eq "%s"', 'age pr'], lambda a, b: a or b),
+         ('{0} or {1} or {2}', ['name eq "%s"', 'zz pr', 'age pr'], lambda a, b, c: a or b or c), ('not ({0}) and {1}', ['name eq "%s"', 'tier eq 2'], lambda a, b: (not a) and b),
+         ('{0} or {1} or {2}', ['name eq "%s"', 'tier.sub eq 1', 'tier eq 2'], None)]
+    for lit in ['Zoë', 'é', '日本', '\U0001f600', 'aébécédé', 'Kİẞ', 'zoe']:
+        for fmt, comps, fn in T:
+            comps = [c % lit if '%s' in c else c for c in comps]
+            for ob in (o, o2):
+                out.append((fmt.format(*comps), ob, 'nonascii-prefix', (comps, fn) if fn else None))
+    return out
+
+def nil_object(ctx):
+    """the object itself is a nil map / an empty map"""
+    out = []
+    T = [('{0}', ['x eq 1'], lambda a: a), ('not ({0})', ['x eq 1'], lambda a: not a), ('NOT ({0})', ['v pr'], lambda a: not a),
+         ('{0} or not ({1} and {2})', ['a pr', 'b pr', 'c pr'], lambda a, b, c: a or not (b and c)), ('{0}', ['x eq null'], lambda a: a), ('{0}', ['x ne null'], lambda a: a), ('{0}', ['x pr'], lambda a: a),
+         ('not ({0}) and not ({1})', ['x pr', 'y.z pr'], lambda a, b: (not a) and (not b)), ('{0}', ['x.y eq 1'], lambda a: a), ('not ({0})', ['x.y eq 1'], lambda a: not a),
+         ('{0}', ['x gt null'], None), ('not ({0})', ['x gt null'], None), ('{0}', ['x in [1]'], lambda a: a), ('not ({0})', ['x in [1]'], lambda a: not a),
+         ('{0} or not ({1})', ['x eq true', 'x eq false'], lambda a, b: a or not b)]
+    for ob in (('nilmap',), obj({})):
+        for fmt, comps, fn in T:
+            out.append((fmt.format(*comps), ob, 'nil-object', (comps, fn) if fn else None))
+    return out
+
+def sequences(ctx):
+    """rule / object sequences meant to run in ONE process in this order: cross-rule caches (texts that differ in case only),
+    state left behind by a failing literal, many calls in a row"""
+    seqs = []
+    ob = obj({'name': S('bob'), 'Name': S('al'), 'x': I(1), 'y': I(2), 'X': I(5), 'tier': I(1), 'region': S('us'), 'Tier': I(9), 'Region': S('eu')})
+    twins = [['name eq "bob"', 'Name eq "bob"', 'NAME eq "bob"', 'name eq "bob"', 'Name eq "al"'], ['x eq 1 and y eq 2', 'x eq 1 AND y eq 2', 'X eq 1 and y eq 2', 'x eq 1 and y eq 2', 'X eq 5 and y eq 2'],
+             ['x eq true', 'x eq TRUE', 'x eq True'], ['x pr', 'x PR', 'X pr', 'x Pr'], ['tier eq 1 or region eq "eu"', 'Tier eq 1 or Region eq "eu"', 'TIER eq 1 or REGION eq "eu"'],
+             ['x eq null', 'x eq NULL', 'X eq null'], ['not (x eq 2)', 'NOT (x eq 2)', 'Not (x eq 2)', 'NOT (X eq 2)'], ['x in [1]', 'x IN [1]', 'X in [1]', 'x In [1]']]
+    for tw in twins:
+        seqs.append([(t, ob) for t in tw])
+        seqs.append([(t, ob) for t in reversed(tw)])
+    o1, o5 = obj({'x': I(1), 's': S('a'), 'k': I(1)}), obj({'x': I(5), 's': S('c'), 'y': I(5)})
+    stale = ['x in [1, 99999999999999999999]', 'x in [2, 3]', 'y in [5, 99999999999999999999]', 'not (x in [2, 3])', 'x in [1.5, 1.0e999]', 'x in [2.5]', 'x in [1, 99999999999999999999]',
+             's in ["a", "b"]', 'k eq 99999999999999999999', 'x in [2]', 'x in [5, 99999999999999999999] or x in [2, 3]', 'x in [2, 3]', 's in ["c", "d"]', 'y in [5, 99999999999999999999]', 'x in [2, 3] or s in ["q"]',
+             'x gt null', 'x in [2, 3]', 'x co 1', 'not (x in [2, 3])']
+    for ob_ in (o1, o5):
+        seqs.append([(t, ob_) for t in stale])
+    seqs.append([(t, o5 if i % 2 else o1) for i, t in enumerate(stale + list(reversed(stale)))])
+    return seqs
